@@ -534,3 +534,36 @@ def between_diagonals(r, block):
             if ch != " ":
                 g[r0 + j][c0 + i] = ch
     return "\n".join("".join(row).rstrip() for row in g), c0, r0
+
+
+ARC_TOP_LEFT = ["    _.-''''", "  ,'", " /", ".", "|", "|"]           # the top left quarter of a large catalogue circle
+
+
+def arc_and_box_page(r, block, frame=True):
+    """a quarter arc of the catalogue and a box whose bounding boxes overlap without nesting, the block inside the box where the
+    two overlap (touching nothing), optionally with a frame around everything: shapes recognised before the block that all
+    'hold' it.  block: at most two rows.  returns (text, column, row) of the block"""
+    bw, bh = max(len(b) for b in block), len(block)
+    ox, oy = (3, 2) if frame else (r.randint(0, 2), r.randint(0, 1))
+    page = {}
+
+    def put(rows, dx, dy):
+        for y, row in enumerate(rows):
+            for x, ch in enumerate(row):
+                if ch != " ":
+                    page[(dx + x, dy + y)] = ch
+    put(ARC_TOP_LEFT, ox, oy)
+    iw, ih = bw + 2 + r.randint(0, 6), bh + 2
+    put(["+" + "-" * iw + "+"] + ["|" + " " * iw + "|"] * ih + ["+" + "-" * iw + "+"], ox + 5, oy + 2)
+    bx, by = ox + 5 + 2, oy + 2 + 2
+    put(block, bx, by)
+    W = max(x for x, _ in page) + 1
+    H = max(y for _, y in page) + 1
+    if frame:
+        W, H = W + 3, H + 2
+        put(["+" + "-" * (W - 2) + "+"], 0, 0)
+        put(["+" + "-" * (W - 2) + "+"], 0, H - 1)
+        for y in range(1, H - 1):
+            page[(0, y)] = "|"
+            page[(W - 1, y)] = "|"
+    return "\n".join("".join(page.get((x, y), " ") for x in range(W)).rstrip() for y in range(H)), bx, by
